@@ -490,3 +490,30 @@ func TestVerifC10(t *testing.T) {
 	defer cleanupCorpus()
 	vs.Main(t, vs.Engine{Property: "C10", Name: "clisim", MaxTape: 20000, Run: runC10})
 }
+
+func runtimeGOMAXPROCS(n int) int { return runtime.GOMAXPROCS(n) }
+
+// captureBoth redirects os.Stdout and os.Stderr to files for the duration of fn.
+func captureBoth(fn func()) (stdout, stderr []byte) {
+	fo, err := os.CreateTemp(workDir(), "stdout-")
+	if err != nil {
+		panic(err)
+	}
+	fe, err := os.CreateTemp(workDir(), "stderr-")
+	if err != nil {
+		panic(err)
+	}
+	defer os.Remove(fo.Name())
+	defer os.Remove(fe.Name())
+	oldO, oldE := os.Stdout, os.Stderr
+	os.Stdout, os.Stderr = fo, fe
+	func() {
+		defer func() { os.Stdout, os.Stderr = oldO, oldE }()
+		fn()
+	}()
+	fo.Close()
+	fe.Close()
+	stdout, _ = os.ReadFile(fo.Name())
+	stderr, _ = os.ReadFile(fe.Name())
+	return
+}
